@@ -267,7 +267,7 @@ def all_fields(doc):
 INJECTIONS = ["unknown-field", "leaf-with-selection", "composite-without-selection", "undefined-variable", "unused-variable", "fragment-cycle",
               "alias-conflict", "argument-conflict", "impossible-spread", "unknown-fragment", "unused-fragment", "unknown-argument",
               "duplicate-argument", "missing-required-argument", "duplicate-operation-name", "second-anonymous-operation", "unknown-type-condition",
-              "scalar-type-condition", "duplicate-variable", "non-input-variable", "duplicate-fragment", "dup-field-list-arg", "dup-field-object-arg",
+              "scalar-type-condition", "duplicate-variable", "non-input-variable", "duplicate-fragment", "dup-field-list-arg", "dup-field-object-arg", "dup-field-list-prefix-arg", "dup-field-nested-list-prefix-arg",
               "dup-field-null-arg", "dup-field-variable-arg", "nested-fragment-conflict", "variable-two-positions",
               "deep-chain-valid", "deep-chain-undefined", "deep-chain-unused", "deep-chain-bad-position", "nullable-var-nonnull-position",
               "nullable-var-location-default", "var-default-nonnull-position", "null-for-nonnull", "list-for-int", "int-for-list",
@@ -377,6 +377,16 @@ def _inject(doc, label, rng):
         one, two = {"k": "int", "v": "1"}, {"k": "list", "vs": [{"k": "int", "v": "2"}]}
         other = {"k": "int", "v": "3" if label.endswith("conflict") else "1"}
         op["sel"] += [field("b", "dar", [{"name": "x", "value": one}, {"name": "l", "value": two}]), field("b", "dar", [{"name": "l", "value": copy.deepcopy(two)}, {"name": "x", "value": other}])]
+    elif label in ("dup-field-list-prefix-arg", "dup-field-nested-list-prefix-arg"):
+        # two selections of one response key whose arguments differ ONLY in the length of a list literal (one is a prefix of the other)
+        i1, i2, i3 = ({"k": "int", "v": str(n)} for n in (1, 2, 3))
+        if label == "dup-field-list-prefix-arg":
+            a, b = {"k": "list", "vs": [i1, i2]}, {"k": "list", "vs": [i1, i2, i3]}
+            op["sel"] += [field("b", "", [{"name": "l", "value": a}]), field("b", "", [{"name": "l", "value": b}])]
+        else:
+            def inobj(lst):
+                return {"k": "obj", "fs": [{"key": "y", "val": copy.deepcopy(i1)}, {"key": "l", "val": {"k": "list", "vs": lst}}]}
+            op["sel"] += [field("f", "", [{"name": "in", "value": inobj([])}]), field("f", "", [{"name": "in", "value": inobj([copy.deepcopy(i1)])}])]
     elif label.startswith("dup-field-"):
         v = {"dup-field-list-arg": {"k": "list", "vs": [{"k": "int", "v": "1"}]}, "dup-field-object-arg": {"k": "obj", "fs": [{"key": "q", "val": {"k": "int", "v": "1"}}]},
              "dup-field-null-arg": {"k": "null"}, "dup-field-variable-arg": {"k": "var", "n": "dfv"}}[label]
